@@ -399,6 +399,10 @@ class ModuleVistor(NodeVisitor):
             if ob is None:
                 current.report("cannot resolve re-exported name :"
                                         f'{modname}.{origin_name}', thresh=1)
+            elif ob is current or current.fullName().startswith(ob.fullName() + '.'):
+                # An object can't be moved into itself or into one of its own members.
+                current.report("cannot move re-exported name into itself :"
+                                        f'{ob.fullName()}', thresh=1)
             elif isinstance(ob, model.Module) and (ob.parent is None or 
                     ob.state is model.ProcessingState.PROCESSING):
                 # A top-level module has no place to be moved from and a module that is still 
